@@ -173,6 +173,11 @@ func (s *socket) GetOption(option string) (interface{}, error) {
 }
 
 func (s *socket) AddPipe(pp protocol.Pipe) error {
+	s.Lock()
+	defer s.Unlock()
+	if s.closed {
+		return protocol.ErrClosed
+	}
 	p := &pipe{
 		p:      pp,
 		s:      s,
@@ -180,11 +185,6 @@ func (s *socket) AddPipe(pp protocol.Pipe) error {
 		sendQ:  make(chan *protocol.Message, s.sendQLen),
 	}
 	pp.SetPrivate(p)
-	s.Lock()
-	defer s.Unlock()
-	if s.closed {
-		return protocol.ErrClosed
-	}
 	s.pipes[pp.ID()] = p
 
 	go p.sender()
